@@ -10,12 +10,19 @@ pub fn run(o: &Opts) -> Report {
     let mut reqs = vec![]; let mut impls = vec![];
     let n_cmds = if o.thorough() { 10000 } else { 1500 };
     for _ in 0..n_cmds {
-        let cv = gen_conventional(&mut rng, true);
+        let mut cv = gen_conventional(&mut rng, true);
+        // a positional that accepts hyphen values must not change how *defined* flags and their aliases are read
+        let mut hyph_pos = false;
+        if let Some(&lp) = cv.pos.last() { if rng.chance(1, 4) { cv.cmd.args[lp].allow_hyphen = true; hyph_pos = true; } }
         if !real_valid(&cv.cmd) { rep.count("invalid_definition(skipped)"); continue; }
         for _ in 0..8 {
-            let inv = gen_invocation(&mut rng, &cv, false);
-            let a1 = render(&mut rng, &cv, &inv, true);
-            let a2 = render(&mut rng, &cv, &inv, true);
+            let mut inv = gen_invocation(&mut rng, &cv, false);
+            // once a hyphen-accepting positional is collecting, everything is a value (documented): keep flags/options in front
+            if hyph_pos { let (mut front, mut back): (Vec<Item>, Vec<Item>) = (vec![], vec![]); for it in inv.items.drain(..) { if matches!(it, Item::Pos { .. }) { back.push(it) } else { front.push(it) } } front.extend(back); inv.items = front; }
+            // with a hyphen-accepting positional, optional-value short-only options have no equivalent unattached spelling
+            if hyph_pos && inv.items.iter().any(|it| matches!(it, Item::Opt { arg, vals } if vals.len() == 1 && cv.cmd.args[*arg].long.is_none() && cv.cmd.args[*arg].num_vals.map(|(lo, _)| lo == 0).unwrap_or(false))) { continue; }
+            let a1 = render_with(&mut rng, &cv, &inv, !hyph_pos, !hyph_pos);
+            let a2 = render_with(&mut rng, &cv, &inv, !hyph_pos, !hyph_pos);
             let (c1, _, e1) = real_parse(&cv.cmd, &a1);
             let (c2, _, _) = real_parse(&cv.cmd, &a2);
             let r1 = parse_request(&cv.cmd, &a1);
@@ -31,7 +38,7 @@ pub fn run(o: &Opts) -> Report {
             reqs.push(r2); impls.push(c2);
         }
         // ambiguous prefixes never resolve
-        if cv.cmd.settings.infer_long_args {
+        if cv.cmd.settings.infer_long_args && !hyph_pos {
             let longs: Vec<(String, String)> = cv.cmd.args.iter().flat_map(|a| a.long.iter().chain(a.aliases.iter()).map(|l| (l.clone(), a.id.clone())).collect::<Vec<_>>()).collect();
             for (l, id) in &longs {
                 for cut in 1..l.chars().count() {
